@@ -72,7 +72,7 @@ def run(chk):
                         if len(got) != len(srcv):
                             chk.violated(rule, inst, "%d slots from %d source slots" % (len(got), len(srcv)), loc)
                             continue
-                        casts = [("cast", T2, s[1]) for s in srcv]
+                        casts = [("cast", T2, s[1], T1) for s in srcv]
                         plain = all(g[1] == c and g[0] == s[0] for g, c, s in zip(got, casts, srcv))
                         ok = plain
                         how = "one cast per slot"
